@@ -159,6 +159,7 @@ def generate(rng, index, tier):
     plan = {
         'seed': rng.getrandbits(32), 'net': net, 'settings': settings, 'login': login, 'state': state,
         'index': rng.randint(0, BURST_MAX_INDEX) if state == 'burst' else 0,
+        'trigger': rng.choice(['recv', 'write']) if state == 'burst' else 'recv',
         'delay': rng.choice([0.0, 0.0, 0.05, 0.3, 1.0, 5.0]),
         'pending': [], 'action': draw_action(rng, state, login), 'stop_after': None, 'server_omit': [],
     }
@@ -187,7 +188,7 @@ PLAIN = {
 
 def _plan(settings, login='accept', state='steady', action=None, **kw):
     p = {'seed': 11, 'net': dict(SIMPLE_NET), 'settings': copy.deepcopy(settings), 'login': login, 'state': state,
-         'index': 0, 'delay': 0.3, 'pending': [], 'action': dict(action or {'kind': 'none'}), 'stop_after': None,
+         'index': 0, 'trigger': 'recv', 'delay': 0.3, 'pending': [], 'action': dict(action or {'kind': 'none'}), 'stop_after': None,
          'server_omit': []}
     p.update(kw)
     return p
@@ -240,9 +241,10 @@ def corpus(tier):
                 if act['kind'] == 'stop' or act.get('how') in ('fin', 'rst', 'requested'):
                     out.append(_plan(s, state='steady', action=act, pending=[pend], delay=1.0))
     # 4. the post-login burst, enumerated by the index of the frame the server has just received
-    for idx in range(0, BURST_MAX_INDEX + 1):
-        for act in BURST_ACTIONS:
-            out.append(_plan(dict(RICH, timeout=1), state='burst', index=idx, action=act))
+    for trigger in ('recv', 'write'):
+        for idx in range(0, BURST_MAX_INDEX + 1):
+            for act in BURST_ACTIONS:
+                out.append(_plan(dict(RICH, timeout=1), state='burst', index=idx, trigger=trigger, action=act))
     # 5. stop() after a loss: while the watchdog waits, while it reconnects, after the re-login
     for how in ('rst', 'fin', 'requested'):
         for d in STOP_AFTER:
@@ -294,9 +296,10 @@ def simplify(plan):
 
 def enumerated_axes(tier):
     return {
-        'burst_frame_index': {'size': (BURST_MAX_INDEX + 1) * len(BURST_ACTIONS), 'exhaustive': True,
+        'burst_frame_index': {'size': 2 * (BURST_MAX_INDEX + 1) * len(BURST_ACTIONS), 'exhaustive': True,
                               'what': 'stop / FIN / RST / reset / requested disconnect / reset+send fired when the i-th '
-                                      'frame (i = 0 Login .. 24) of the post-login burst reached the server, rich settings'},
+                                      'frame (i = 0 Login .. 24) of the post-login burst reached the server, and when the '
+                                      'client handed its i-th frame to the socket; rich settings'},
         'position_x_fault': {'size': 2 * len(CORPUS_ACTIONS) * 2, 'exhaustive': True,
                              'what': 'every fault kind and stop() before login and while idle, reconnect on and off'},
         'login_mode': {'size': len(LOGIN_MODES) * 2 * 2, 'exhaustive': True,
@@ -316,6 +319,12 @@ class LinkTap(Tap):
         self.world = world
         self.eof = {}        # conn id -> t (FIN delivered to alice)
         self.lost = {}       # conn id -> (t, exc type name or None) of alice's end
+        self.on_client_write = None
+
+    def on_write(self, conn, direction, data):
+        if self.on_client_write is not None and conn.src.name == OWN and conn.dst.name == 'server' \
+                and direction == 'c2s':
+            self.on_client_write(conn)
 
     def on_eof(self, conn, direction):
         if conn.src.name == OWN and direction == 's2c':
@@ -367,11 +376,13 @@ def _run(world: World, plan):
         elif f['beh'] == 'silent':
             server.add_user_script[f['name']] = ['silent'] * 50
     logins_seen = [0]
+    accepted = set()
     login_loss = {}
 
     def login_behaviour(session, message):
         logins_seen[0] += 1
         if logins_seen[0] > 1 or login_mode == 'accept':
+            accepted.add(session.index)
             return 'accept'
         if login_mode in ('eof', 'rst'):
             login_loss.update({'how': 'fin' if login_mode == 'eof' else 'rst', 'at': loop.time(),
@@ -478,12 +489,27 @@ def _run(world: World, plan):
         if session.ip != alice.host.ip:
             return
         world.trace('frame', session.index, type(message).__qualname__ if not isinstance(message, tuple) else 'undecodable')
-        if state == 'burst' and not ctx['action_fired'] and session is alice_sessions()[0]:
+        if state == 'burst' and plan.get('trigger', 'recv') == 'recv' and not ctx['action_fired'] \
+                and session is alice_sessions()[0]:
             idx = burst_count[0]
             burst_count[0] += 1
             if idx == int(plan.get('index', 0)):
                 fire_action('burst')
     server.observers.append(on_server_frame)
+
+    write_count = [0]
+
+    def on_client_write(conn):
+        # the client has just handed its i-th frame of the first connection to the socket (0 = Login)
+        if state != 'burst' or plan.get('trigger') != 'write' or ctx['action_fired']:
+            return
+        if conn is not alice_conns()[0]:
+            return
+        idx = write_count[0]
+        write_count[0] += 1
+        if idx == int(plan.get('index', 0)):
+            fire_action('burst_write')
+    tap.on_client_write = on_client_write
 
     # ------------------------------------------------------------------ helpers
     async def sleep_until(when):
@@ -722,7 +748,8 @@ def _run(world: World, plan):
             world.violate('C16.after_stop_open', what='listener', port='clear' if port == CLEAR_PORT else 'obfuscated')
         await no_session_probe('after_stop')
         await asyncio.sleep(0.5)
-        check_reset('stop')
+        if not [a for a in world.net.connect_attempts[snap['nattempts']:] if a['src'] == OWN and a['dst'] == 'server']:
+            check_reset('stop')     # (a reconnect after stop() is reported by C16.after_stop_connect)
         await sleep_until(t_ret + AFTER_STOP)
         for att in world.net.connect_attempts[snap['nattempts']:]:
             if att['src'] == OWN and att['time'] >= t_ret - EPS:
@@ -762,14 +789,18 @@ def _run(world: World, plan):
         return 'reconnect'
 
     def logins_after(t):
+        """Login frames on connections opened after t (frames of the lost connection still in flight do not count)."""
         out = []
         for sess in alice_sessions():
+            conn = _conn_of(sess)
+            if conn is None or conn.opened_at <= t + EPS:
+                continue
             for (ft, m) in sess.received:
-                if isinstance(m, M.Login.Request) and ft > t + EPS:
+                if isinstance(m, M.Login.Request):
                     out.append((ft, sess))
         return out
 
-    async def loss_flow(loss):
+    async def loss_flow(loss, stop_after=stop_after):
         how = loss['how']
         t_loss = loss['at']
         bound = {'stall': 660.0, 'write_stall': 25.0}.get(how, NOTICE_BOUND)
@@ -784,10 +815,11 @@ def _run(world: World, plan):
         else:
             t_ref = closed[0]
             world.probe('close_reason_%s_%s' % (how, closed[1]))
-            await sleep_until(t_ref + 0.5)
-            if not ctx['stopped']:
-                check_reset('loss')
-                await no_session_probe('after_loss')
+            if stop_after is None or float(stop_after) >= 0.5:
+                await sleep_until(t_ref + 0.5)
+                if not ctx['stopped']:
+                    check_reset('loss')
+                    await no_session_probe('after_loss')
         if ctx['stopped']:
             return
         if stop_after is not None:
@@ -815,7 +847,7 @@ def _run(world: World, plan):
             relogged = [e for e in session_events if e[1] == 'init' and e[0] >= new[0][0]]
             if cutoff is not None and relogged and link_up():
                 check_burst(sess, cutoff, 'relogin')
-            elif not relogged:
+            elif not relogged and sess.index in accepted:
                 world.violate('C16.reconnect_missing', **facts, connected=True, login_sent=True, session=False)
         elif expect == 'none':
             window = 5.0 * timeout
@@ -884,18 +916,22 @@ def _run(world: World, plan):
                 check_burst(current_session[0], cutoff, 'login')
         elif login.done and not ctx['action_fired']:
             await no_session_probe('after_failed_login')
-        if state == 'steady' and not ctx['action_fired']:
+        if login_loss:
+            # the loss caused by the login mode (EOF / RST on Login); a planned stop() follows it `delay` s
+            # after the client noticed (possibly while the client waits to reconnect)
+            sa = stop_after
+            if sa is None and action.get('kind') == 'stop' and not ctx['stopped']:
+                sa = float(plan.get('delay', 0.0))
+                ctx['action_fired'] = True
+                ctx['action_at'] = loop.time()
+            await loss_flow(login_loss, stop_after=sa)
+        elif state == 'steady' and not ctx['action_fired']:
             if pending and logged_in:
                 await apply_pending()
             await asyncio.sleep(float(plan.get('delay', 0.0)))
             fire_action('steady')
         if state == 'burst' and not ctx['action_fired']:
             world.probe('burst_index_beyond_burst')
-        # the loss caused by the login mode (EOF / RST on Login) comes first
-        if login_loss:
-            await loss_flow(login_loss)
-            if action.get('kind') == 'stop' and not ctx['stopped'] and not ctx['action_fired']:
-                fire_action('steady')
         for loss in list(ctx['losses']):
             if not ctx['stopped']:
                 await loss_flow(loss)
@@ -935,7 +971,7 @@ def _run(world: World, plan):
     shape = (s.get('ports'), s.get('bind_fail'), len(friends), tuple(sorted(f['beh'] for f in s.get('friends', []))),
              len(s.get('liked', [])), len(s.get('hated', [])), len(s.get('favorites', [])), bool(s.get('auto_join')),
              bool(s.get('invites')), reconnect_on, timeout if reconnect_on else None, len(trees))
-    sig = [shape, login_mode, state, plan.get('index') if state == 'burst' else None, tuple(pending),
+    sig = [shape, login_mode, state, (plan.get('index'), plan.get('trigger')) if state == 'burst' else None, tuple(pending),
            action.get('kind'), action.get('how'), action.get('k'), stop_after, reasons, n_init,
            ctx['stop_return'] is not None]
     return common.finish(world, nontrivial, sig)
